@@ -2,6 +2,7 @@ from propkit import job
 
 PROP = {
     "level": "exploration",
+    "technique": "runtime monitoring: reference split/reassembly oracle on the real splitter, reassembler and send paths (in-package, generated sizes/orders; packet-ID census)",
     "jobs": [
         job("frag", "core", "./internal/frag/", "frag",
             ["harness/core/internal/frag/c05_test.go"], "^TestVerifC05",
